@@ -8,6 +8,7 @@ B  the text report is parsed back (column positions from its header) and every p
 P  Frontend._user_warnings_header / _user_warnings_footer / _get_flag_symbols / _missing_instruction_error:
    warning text present iff flag (strings are concrete, flags symbolic).
 """
+import os
 import z3
 
 from pyvc.engine import Engine
@@ -503,6 +504,30 @@ def run_dispatch_unit(res):
     return res
 
 
+def arch_table_unit(res):
+    """P (finite, exhaustive): MachineModel.get_isa_for_arch executed for every architecture the command line accepts
+    (SUPPORTED_ARCHS, any letter case): the ISA it names is the one the model file of that architecture declares ('isa:' header of
+    osaca/data/<arch>.yml; emptied files are skipped), and each default architecture (DEFAULT_ARCHS) is a supported architecture of
+    exactly the ISA it is the default for - so 'the default model of the detected ISA' is a model of that ISA."""
+    import re as _re
+    ex = Engine([REPO + "/osaca/semantics/hw_model.py", REPO + "/" + OS])
+    supported = ex.eval(ex.consts["SUPPORTED_ARCHS"], {}, None)
+    defaults = ex.eval(ex.consts["DEFAULT_ARCHS"], {}, None)
+    res.add("tables-found", [], isinstance(supported, list) and len(supported) >= 10 and isinstance(defaults, dict) and set(defaults) == {"x86", "aarch64"})
+    for arch in supported:
+        for spelled in (arch, arch.lower()):
+            paths = ex.explore(lambda spelled=spelled: ex.call_method("MachineModel", "get_isa_for_arch", None, [spelled]), [])
+            path = os.path.join(REPO, "osaca", "data", arch.lower() + ".yml")
+            txt = open(path).read() if os.path.exists(path) else ""
+            m = _re.search(r"^isa:\s*(\S+)", txt, _re.M)
+            declared = m.group(1).strip("'\"").lower() if m else None
+            res.add_paths(paths, lambda v, p, declared=declared: v in ("x86", "aarch64") and (declared is None or v == declared), kind=f"isa-of/{spelled}")
+    for isa, arch in (defaults.items() if isinstance(defaults, dict) else []):
+        paths = ex.explore(lambda arch=arch: ex.call_method("MachineModel", "get_isa_for_arch", None, [arch]), [])
+        res.add_paths(paths, lambda v, p, isa=isa, arch=arch: v == isa and arch in supported, kind=f"default-of/{isa}")
+    return res
+
+
 def lcd_list_unit(res):
     """Pb: Frontend.loopcarried_dependencies (the LCD list of the text report) for 0-3 loop-carried dependencies with symbolic
     latencies: exactly one row per dependency (in any order), each showing the first member's line number, the
@@ -563,6 +588,7 @@ def units(tier):
         Unit("C13/detect_ISA(majority of register-name matches)", detect_isa_unit, "P", [("osaca/parser/base_parser.py", "BaseParser.detect_ISA")], decisive=False),
         Unit("C13/full_analysis(assembly of the text report)", full_analysis_unit, "P", [(FE, "Frontend.full_analysis")], decisive=False),
         Unit("C13/run(dispatch of the command line)", run_dispatch_unit, "P", [(OS, "run"), (OS, "import_data")], decisive=False),
+        Unit("C13/architecture-table(get_isa_for_arch, defaults)", arch_table_unit, "P", [("osaca/semantics/hw_model.py", "MachineModel.get_isa_for_arch")], decisive=False),
         Unit("C13/loopcarried_dependencies(LCD list rows)", lcd_list_unit, "Pb", [(FE, "Frontend.loopcarried_dependencies")], decisive=False),
         Unit("C13/inspect/warning-flags-and-report-wiring", _inspect_unit(), "P", [(OS, "inspect")], decisive=False),
         bounded_unit("C13/report-vs-dict", "c13_report", [(FE, "Frontend.combined_view"), (FE, "Frontend.full_analysis_dict"), (FE, "Frontend.loopcarried_dependencies"),
